@@ -687,6 +687,163 @@ theorem segs_from_fresh {c : Nat} {ac : Bool} (hc : 1 ≤ c) :
         simp only [wellFormedSegs, Bool.and_eq_true] at hwf
         exact ih hfresh hwf.2
 
+/-- the expected outputs of an abandoned cycle of `n` pushes -/
+def droppedOuts (n : Nat) : List Out :=
+  (List.range n).map (fun i => (⟨.ok, none, i + 1, i + 1⟩ : Out)) ++ [⟨.ok, none, 0, 0⟩]
+
+theorem droppedOuts_length (n : Nat) : (droppedOuts n).length = n + 1 := by
+  simp [droppedOuts]
+
+/-- `checkDropped` accepts exactly the outputs `droppedOuts n` -/
+theorem checkDropped_iff (n : Nat) (o : List Out) (hlen : o.length = n + 1) :
+    checkDropped n o = none ↔ o = droppedOuts n := by
+  unfold checkDropped droppedOuts
+  constructor
+  · intro h
+    split at h
+    · cases h
+    · rename_i h1
+      split at h
+      · cases h
+      · rename_i h2
+        have h1' := Classical.not_not.mp h1
+        have h2' := Classical.not_not.mp h2
+        have hd : o.drop n = [⟨.ok, none, 0, 0⟩] := by
+          have hl : (o.drop n).length = 1 := by rw [List.length_drop]; omega
+          match hdd : o.drop n, hl with
+          | [x], _ =>
+            have : o[n]? = some x := by
+              have := List.getElem?_drop (xs := o) (i := n) (j := 0)
+              rw [hdd] at this; simpa using this.symm
+            rw [this] at h2'; cases h2'; rfl
+        rw [← List.take_append_drop n o, h1', hd]
+  · intro h
+    subst h
+    have hl : ((List.range n).map (fun i => (⟨.ok, none, i + 1, i + 1⟩ : Out))).length = n := by simp
+    rw [if_neg (by rw [List.take_left' hl]; exact fun h => h rfl)]
+    rw [if_neg]
+    rw [List.getElem?_append_right (by omega), hl]
+    simp
+
+theorem seg_ops_length_dropped (es : List Elem) : (Seg.dropped es).ops.length = es.length + 1 := by
+  simp [Seg.ops]
+
+/-- **The segment checker is sound**: whatever outputs (one per call) `checkSegs` accepts satisfy
+    `SegSpec` - every use cycle delivers the sorted multiset of its own pushes (nothing of an
+    abandoned cycle), every abandoned cycle answers nil with `Len`/`Pos` restarting.  This closes
+    the gap between what the drivers of C11/C13 evaluate on the implementation's observation of a
+    program with abandoned cycles and the specification `segs_from_fresh` proves of the model. -/
+theorem checkSegs_sound (ac : Bool) : ∀ (sg : List Seg) (i : Nat) (outs : List Out),
+    outs.length = (sg.flatMap Seg.ops).length → checkSegs ac sg i outs = none → SegSpec ac sg outs := by
+  intro sg
+  induction sg with
+  | nil =>
+    intro i outs hlen _
+    simp only [List.flatMap_nil, List.length_nil] at hlen
+    exact List.eq_nil_of_length_eq_zero hlen
+  | cons g rest ih =>
+    intro i outs hlen hc
+    cases g with
+    | cyc cy =>
+      have hops : ((Seg.cyc cy :: rest).flatMap Seg.ops).length = cycleOpCount cy + (rest.flatMap Seg.ops).length := by
+        simp only [List.flatMap_cons, List.length_append, Seg.ops, cycle_ops_length]
+      rw [hops] at hlen
+      simp only [checkSegs] at hc
+      cases hcc : checkCycle ac cy (outs.take (cycleOpCount cy)) with
+      | some why => rw [hcc] at hc; cases hc
+      | none =>
+        rw [hcc] at hc
+        obtain ⟨ys, hys, hspec⟩ := checkCycle_sound ac cy (outs.take (cycleOpCount cy))
+          (by rw [List.length_take]; omega) hcc
+        refine ⟨ys, outs.drop (cycleOpCount cy), hys, ?_, ?_⟩
+        · rw [← hspec, List.take_append_drop]
+        · exact ih (i + 1) _ (by rw [List.length_drop]; omega) hc
+    | dropped es =>
+      have hops : ((Seg.dropped es :: rest).flatMap Seg.ops).length = (es.length + 1) + (rest.flatMap Seg.ops).length := by
+        simp only [List.flatMap_cons, List.length_append, seg_ops_length_dropped]
+      rw [hops] at hlen
+      simp only [checkSegs] at hc
+      cases hcc : checkDropped es.length (outs.take (es.length + 1)) with
+      | some why => rw [hcc] at hc; cases hc
+      | none =>
+        rw [hcc] at hc
+        have hd := (checkDropped_iff es.length _ (by rw [List.length_take]; omega)).mp hcc
+        refine ⟨outs.drop (es.length + 1), ?_, ?_⟩
+        · show outs = droppedOuts es.length ++ _
+          rw [← hd, List.take_append_drop]
+        · exact ih (i + 1) _ (by rw [List.length_drop]; omega) hc
+
+/-- **The segment checker demands no more than the specification**: outputs that satisfy
+    `SegSpec` are accepted by `checkSegs`. -/
+theorem checkSegs_complete (ac : Bool) : ∀ (sg : List Seg) (i : Nat) (outs : List Out),
+    SegSpec ac sg outs → checkSegs ac sg i outs = none := by
+  intro sg
+  induction sg with
+  | nil => intro i outs _; rfl
+  | cons g rest ih =>
+    intro i outs hs
+    cases g with
+    | cyc cy =>
+      obtain ⟨ys, outs', hys, rfl, hrest⟩ := hs
+      simp only [checkSegs]
+      rw [List.take_left' (specCycle_length ac ys cy), checkCycle_complete ac cy ys hys,
+        List.drop_left' (specCycle_length ac ys cy)]
+      exact ih (i + 1) outs' hrest
+    | dropped es =>
+      obtain ⟨outs', rfl, hrest⟩ := hs
+      simp only [checkSegs]
+      have hl := droppedOuts_length es.length
+      change (match checkDropped es.length ((droppedOuts es.length ++ outs').take (es.length + 1)) with
+        | some why => _ | none => checkSegs ac rest (i + 1) ((droppedOuts es.length ++ outs').drop (es.length + 1))) = none
+      rw [List.take_left' hl, (checkDropped_iff es.length _ hl).mpr rfl, List.drop_left' hl]
+      exact ih (i + 1) outs' hrest
+
+/-- on one output per call the segment checker and `SegSpec` coincide -/
+theorem checkSegs_iff (ac : Bool) (sg : List Seg) (i : Nat) (outs : List Out)
+    (hlen : outs.length = (sg.flatMap Seg.ops).length) :
+    checkSegs ac sg i outs = none ↔ SegSpec ac sg outs :=
+  ⟨checkSegs_sound ac sg i outs hlen, checkSegs_complete ac sg i outs⟩
+
+/-- **what the drivers of C11 and C13 evaluate on a program with abandoned cycles and rejected
+    pushes**: if `programStatementA` accepts the implementation's outputs of a program whose
+    accepted calls `segsOf` recognises as the well-formed segments `sg`, then the outputs of the
+    accepted calls satisfy `SegSpec ac sg` and every rejected `Push` is a no-op. -/
+theorem programStatementA_sound (ac : Bool) (ops : List Op) (sg : List Seg) (outs : List Out)
+    (hh : segsOf ac (dropRejects ops) = some sg) (hs : programStatementA ac sg ops outs = none) :
+    wellFormedSegs ac sg = true ∧ sg.flatMap Seg.ops = dropRejects ops ∧ SegSpec ac sg (dropRejOuts outs)
+      ∧ outs = weave ops (dropRejOuts outs) 0 0 := by
+  unfold segsOf at hh
+  split at hh
+  · rename_i g hg
+    split at hh
+    · rename_i hcond
+      simp only [Option.some.injEq] at hh
+      subst hh
+      unfold programStatementA at hs
+      split at hs
+      · cases hs
+      · rename_i hl
+        have hl : outs.length = ops.length := Decidable.not_not.mp hl
+        cases hrs : rejectsStatement ops outs 0 0 with
+        | some why => rw [hrs] at hs; cases hs
+        | none =>
+          rw [hrs] at hs
+          simp only at hs
+          by_cases hl2 : (dropRejOuts outs).length = (dropRejects ops).length
+          · rw [if_neg (fun h => h hl2)] at hs
+            refine ⟨hcond.2, hcond.1, ?_, (rejectsStatement_sound ops outs 0 0 hl hrs).1⟩
+            exact checkSegs_sound ac g 1 _ (by rw [hcond.1]; exact hl2) hs
+          · rw [if_pos hl2] at hs; cases hs
+    · cases hh
+  · cases hh
+
+/-- non-vacuity of `checkSegs_sound` / `checkSegs_iff`: the outputs of an abandoned cycle of two
+    pushes are accepted, and a `Len` that did not restart after its `Clear` is refused -/
+example : checkSegs true [.dropped [⟨5,0⟩, ⟨3,0⟩]] 1
+    [⟨.ok, none, 1, 1⟩, ⟨.ok, none, 2, 2⟩, ⟨.ok, none, 0, 0⟩] = none := by decide
+example : checkSegs true [.dropped [⟨5,0⟩, ⟨3,0⟩]] 1
+    [⟨.ok, none, 1, 1⟩, ⟨.ok, none, 2, 2⟩, ⟨.ok, none, 2, 0⟩] ≠ none := by decide
+
 /-- non-vacuity: memory-only cycle, abandoned spilling cycle, drained cycle (the shape of C13-m7) -/
 example : wellFormedSegs true [.cyc ⟨[⟨2,0⟩], 2, true⟩, .dropped [⟨5,0⟩, ⟨3,0⟩, ⟨4,0⟩], .cyc ⟨[⟨7,0⟩], 2, false⟩] = true := by decide
 
